@@ -35,6 +35,7 @@ def gen_shape(r: apigen.Rng, idx: int, conforming=None, force=None, first_kind=N
     s["renumber"] = r.maybe(0.25)
     s["resp_other_file"] = r.maybe(0.2) and all(k in FILE_FREE_KINDS for k in s["repeated"])
     s["sig"] = bool(s["extra_req"]) and r.maybe(0.4)
+    s["route"] = bool(s["extra_req"]) and r.maybe(0.5)      # http rule with a path variable on `parent`: the calls carry x-goog-request-params
     # request and/or response declared in a dependency package (plain protobuf classes, no proto-plus wrapper)
     s["req_pkg"] = "dep" if r.maybe(0.12) else None
     s["resp_pkg"] = "dep" if (r.maybe(0.12) and all(k in DEP_FREE_KINDS for k in s["repeated"])) else None
@@ -198,7 +199,7 @@ def build_api(shapes):
         for j, th in enumerate(decl):
             th(len(decl) - j if s.get("renumber") else j + 1)
         st = s.get("stream")
-        svc.method(s["name"], rq, rs, http=None if st else ("get", "/v1/lists/" + s["name"].lower()),     # every request field travels in the query over REST
+        svc.method(s["name"], rq, rs, http=None if st else ("get", ("/v1/{parent=shelves/*}/lists/" if s.get("route") else "/v1/lists/") + s["name"].lower()),     # the other request fields travel in the query over REST
                    sigs=["parent,filter"] if s.get("sig") else (), ss=st in ("ss", "bidi"), cs=st in ("cs", "bidi"))
     return ([fd] if fd else []) + files
 
@@ -390,6 +391,24 @@ RETRY = {"exceptions": ["ServiceUnavailable"], "initial": 0.01, "maximum": 0.02,
 METADATA = [["x-verif", "1"], ["x-verif-b", "b1"], ["x-verif-b", "b2"]]
 
 
+ROUTING = "x-goog-request-params"
+
+
+def metadata_carried(ctx, m, records, caller_md, payload, label=""):
+    """call options unchanged: the routing header entries and every caller-supplied metadata pair of request k >= 2 equal those of
+    request 1 (same values, same multiplicity, same order per key)"""
+    keys = {a for a, _ in caller_md} | {ROUTING}
+    pick = lambda rec: [[a, b] for a, b in rec["metadata"] if a in keys]      # noqa: E731
+    if not records:
+        return
+    first = pick(records[0])
+    ctx.count("routing_header", "first request carries x-goog-request-params" if any(a == ROUTING for a, _ in first) else "no routing header")
+    for k, rec in enumerate(records[1:], start=2):
+        if sorted(pick(rec)) != sorted(first) or [b for a, b in pick(rec) if a == ROUTING] != [b for a, b in first if a == ROUTING]:
+            ctx.fail("call-options:metadata", f"{m.name}{label}: request {k} carries metadata {pick(rec)}, request 1 carried {first}", payload)
+            break
+
+
 def settable_size(s):
     """name of the request's size field when the caller can set it to a plain integer (the wrapper-typed legacy fields are left unset)"""
     x = s.get("size")
@@ -467,7 +486,7 @@ def classify_service(ctx, svc, shapes):
         impl = m.paged_result_field.name if m.paged_result_field else None
         ctx.case({"shape": {k: v for k, v in s.items() if k != "name"}, "paged": impl}, distinct_key=["shape", json.dumps(s, sort_keys=True)])
         ctx.count("classification", f"{'paged' if impl else 'plain'}:{s.get('mutation', 'conforming')}")
-        for fl in ("opt", "oneof_token", "renumber", "resp_other_file", "sig", "stream", "req_pkg", "resp_pkg"):
+        for fl in ("opt", "oneof_token", "renumber", "resp_other_file", "sig", "stream", "req_pkg", "resp_pkg", "route"):
             if s.get(fl):
                 ctx.count("shape_variation", fl)
         ctx.traces += 1
@@ -547,7 +566,7 @@ def t3_service(ctx, r, api, codec, root, svc, svc_full, shapes, model, wmodel, p
                 modes.append("request-none")
             live = live_pages(hist)
             script = [{"replies": [codec.encode_b64(m.output.ident.proto, page_json(s, p, "results0", kind))]} for p in hist]
-            kwargs = {"timeout": 7.0, "metadata": METADATA}
+            kwargs = {"timeout": 7.0, "metadata": METADATA + ([[ROUTING, "caller=1"]] if r.maybe(0.25) else [])}
             fail_at = None
             if len(live) >= 2 and r.maybe(0.4):
                 # call options: the caller's retry must reach the fetches of the PAGER: one transient error before page `fail_at`
@@ -586,7 +605,7 @@ def t3_service(ctx, r, api, codec, root, svc, svc_full, shapes, model, wmodel, p
     obj_calls = []
     for (s, m, kind, hist, reqd, call, fail_at, prog) in plans:
         c = {k: v for k, v in call.items() if k not in ("again_same_args", "consume")}
-        c["call_kwargs"] = {"timeout": 7.0, "metadata": METADATA}
+        c["call_kwargs"] = {"timeout": 7.0, "metadata": call["call_kwargs"]["metadata"]}
         c["mode"] = "request-instance"
         c["script"] = {f"/{svc_full}/{s['name']}": [{"replies": [codec.encode_b64(m.output.ident.proto, page_json(s, p, "results0", kind))]} for p in hist]}
         c["program"] = prog
@@ -675,6 +694,7 @@ def t3_service(ctx, r, api, codec, root, svc, svc_full, shapes, model, wmodel, p
                                  f"caller gave {[b for a, b in METADATA if a == key_]}", payload)
                 if not (0 < rec["time_remaining"] <= 7.5):
                     ctx.fail("call-options-changed", f"{m.name}: request {k} deadline {rec['time_remaining']} (timeout=7)", payload)
+            metadata_carried(ctx, m, srv_all, call["call_kwargs"]["metadata"], payload)
             want_toks = [reqd.get("page_token", "")] + [p["token"] for p in live[:-1]]
             if toks != want_toks:
                 ctx.fail("tokens", f"{m.name}: tokens sent {toks} expected {want_toks}", payload)
@@ -741,7 +761,15 @@ def t3_service(ctx, r, api, codec, root, svc, svc_full, shapes, model, wmodel, p
                     q = {kk: vv[-1] for kk, vv in urllib.parse.parse_qs(rec["query"], keep_blank_values=True).items()}
                     toks.append(q.get("pageToken", q.get("page_token", "")))
                     rest_fields = {kk: vv for kk, vv in q.items() if kk not in ("pageToken", "page_token", "$alt")}
-                    want_rest = {apigen.json_name(kk): str(vv) for kk, vv in codec.normal(m.input.ident.proto, reqd).items() if kk != "page_token"}
+                    want_rest = {apigen.json_name(kk): str(vv) for kk, vv in codec.normal(m.input.ident.proto, reqd).items()
+                                 if kk != "page_token" and not (kk == "parent" and s.get("route"))}        # `parent` travels in the path
+                    if s.get("route") and "/shelves/s1/" not in rec["path"]:
+                        ctx.fail("request-fields-changed", f"{m.name} (rest): request {k} goes to {rec['path']}, caller gave parent=shelves/s1", payload)
+                    hdr = {a.lower(): b for a, b in rec["headers"]}
+                    hdr0 = {a.lower(): b for a, b in srv[0]["headers"]}
+                    if any(hdr.get(x) != hdr0.get(x) for x in (ROUTING, "x-verif")):
+                        ctx.fail("call-options:metadata", f"{m.name} (rest): request {k + 1} carries {ROUTING}={hdr.get(ROUTING)!r}, x-verif={hdr.get('x-verif')!r}; "
+                                 f"request 1 carried {hdr0.get(ROUTING)!r}, {hdr0.get('x-verif')!r}", payload)
                     if rest_fields != want_rest:
                         ctx.fail("request-fields-changed", f"{m.name} (rest): request {k} carries {rest_fields}, caller gave {want_rest}", payload)
                     if dict((a.lower(), b) for a, b in rec["headers"]).get("x-verif") != "1":
@@ -839,6 +867,7 @@ def check_objects(ctx, codec, svc, obj_calls, stream_calls, obj_out, shapes):
                         ctx.fail("call-options-changed", f"{m.name}: request {k} lost or changed caller metadata {key_}", payload)
                 if not (0 < rec["time_remaining"] <= 7.5):
                     ctx.fail("call-options-changed", f"{m.name}: request {k} deadline {rec['time_remaining']} (timeout=7)", payload)
+            metadata_carried(ctx, m, srv, c["call_kwargs"]["metadata"], payload, " (program)")
             want_toks = ([reqd.get("page_token", "")] + [p["token"] for p in live[:-1]])[:len(srv)]
             if toks != want_toks:
                 ctx.fail("tokens", f"{m.name}: tokens sent {toks} expected {want_toks}", payload)
@@ -971,7 +1000,7 @@ def exhaustive_programs(ctx, n):
     """EVERY small program (not a sample) on one fixed history with an empty middle page that repeats the token of the page before it, sync and asyncio, op by op against the
     small-step model and against the oracle of check_objects"""
     s = {"name": "ListBooks0", "page_token": "str", "size": ("page_size", "int32"), "size2": None, "next_page_token": "str",
-         "repeated": ["message"], "extra_req": True, "lead": True}
+         "repeated": ["message"], "extra_req": True, "lead": True, "route": True}
     hist = [{"ids": [1], "token": "a"}, {"ids": [], "token": "a"}, {"ids": [2, 3], "token": ""}, {"ids": [99], "token": ""}]      # equal consecutive tokens
     files = build_api([s])
     req = apigen.request(files, "transport=grpc,autogen-snippets=false")
@@ -1015,7 +1044,7 @@ def run(ctx):
                 "all integer kinds, 1..3 repeated fields of message/nested/scalar/bytes/map/enum/other-file kinds, declaration order != "
                 "number order, response in another file; request / response / items / map values declared in a DEPENDENCY package (plain protobuf classes); proto sub-package layouts: services in a sub-package with messages in the API package, "
                 "one service in each, messages/items in a sub-package with items from a third file) x scripted histories (1..5 pages, sizes 0..3, extra pages after the empty token; token values from a small pool with repetition: equal consecutive tokens, a token equal to the caller's page_token, tokens coming back) "
-                "x {sync, asyncio, REST} x call modes (instance, dict, flattened, none) x the caller's page_size (unset, 0, 1..4, independent of the sizes of the pages served) x programs (second listing with the same objects; "
+                "x {sync, asyncio, REST} x call modes (instance, dict, flattened, none) x the caller's page_size (unset, 0, 1..4, independent of the sizes of the pages served) x routing (half of the methods with a `parent` have an http rule with a path variable on it, so the calls carry x-goog-request-params; a quarter of the callers add a pair of that name themselves) x programs (second listing with the same objects; "
                 "generator programs on one pager: several `pages`/item generators advanced in any interleaving, attribute reads, "
                 "re-iteration; EVERY well-formed program of 4 (thorough: 7) ops on a fixed history; a transient error on a pager-issued fetch under the caller's retry); distinct by (shape), "
                 "(method, history, client kind) and (program, history, client kind); non-trivial = every generated shape / history / program")
